@@ -424,8 +424,7 @@ theorem collapse_map (g : Rat → Rat) (r : Except String (List (Option Rat))) :
       funext v; cases v <;> rfl
     rw [this]
     split_ifs
-    · simp only [Except.map]
-      congr 1
+    · congr 1
       rw [List.filterMap_map, List.map_filterMap]
       rfl
     · rfl
